@@ -86,6 +86,8 @@ fn profile() -> Profile {
         w_recv: 2,
         w_pingresp: 3,
         payload_max: 50,
+        // run-time dependent broker decisions have no place in a differential check
+        shrink_mps_pct: 0,
         ..Profile::default()
     }
 }
